@@ -303,6 +303,9 @@ def checkCase (j : Json) : Except String Verdict := do
         let want := (jint ora "routed").toOption.getD (-1)
         let wantSvc := if want ≥ 0 then (ups[want.toNat]!).service else ""
         if strD iup "service" != wantSvc then v := v.mon "C13" "handled_under_routed_upstream" idx s!"{strD iup "service"} vs {wantSvc}"
+        -- C01: what the backend is asked for is what the client asked for — the path the skip-auth decision was taken on
+        if strD iup "path" != strD ora "escapedPath" then
+          v := v.mons ["C01", "C13"] "upstream_path_is_request_path" idx s!"client asked {strD ora "escapedPath"}, backend got {strD iup "path"}"
       -- C01 / C04 / C05: reached ⇒ whitelisted ∨ a presented session passing every gate
       if reached && !whitel && handlerOf (strD ora "escapedPath") != "OAuthCallback" then
         match psess, strD presented "kind" with
@@ -312,7 +315,12 @@ def checkCase (j : Json) : Except String Verdict := do
           else
             if s.slug != slug then
               v := v.mon "C01" "wrong_provider_session_served" idx s.slug (if s.slug == defaultSlug && u.slug != "" then "provider-slug-ignored" else "")
-            if s.host != host then v := v.mons ["C13", "C01"] "cross_host_session_accepted" idx
+            if s.host != host then
+              v := v.mons ["C13", "C01"] "cross_host_session_accepted" idx
+              -- … and if the user satisfies none of *this* upstream's rules, it is also an admission the rules do not allow
+              let grpHere : GroupAns := if u.groups == ["*"] || u.groups.any (s.groups.contains ·) then .member else .notMember
+              if !specAdmit lower u.rules s.email grpHere then
+                v := v.mon "C11" "admitted_under_another_upstreams_session" idx s!"session of {s.host} served at {host}"
             if s.lifetime < 0 then v := v.mons ["C04", "C01"] "served_after_lifetime" idx
             if s.refresh < 0 then
               match refreshWhy P 0 s a with
@@ -500,7 +508,7 @@ def checkCase (j : Json) : Except String Verdict := do
           -- C11 at login: admitted ⇒ documented any-of
           let (gres, _) := validateGroup u.groups a
           let gans : GroupAns := match gres with | .ok _ true => .member | .ok _ false => .notMember | _ => .error
-          if !specAdmit lower u.rules (toB (strD rd "email")) gans then v := v.mons ["C11", "C01", "C13"] "login_admits_without_rule" idx
+          if !specAdmit lower u.rules (toB (strD rd "email")) gans then v := v.mons ["C11", "C01", "C13", "C06"] "login_admits_without_rule" idx
         else
           -- C11 at login: everything else fine and the user satisfies a rule ⇒ must be admitted
           let rd := getJ inp "ansRedeem"
